@@ -412,8 +412,10 @@ fn run_op(w: &mut World, op: &Value) -> Value {
             use bitcoin::consensus::Encodable;
             let mut prev = *w.blocks[&op["on"].as_u64().unwrap()].header();
             let mut blobs = vec![];
-            for _ in 0..op["count"].as_u64().unwrap_or(1) {
+            for k in 0..op["count"].as_u64().unwrap_or(1) {
                 let b = BlockBuilder::with_prev_header(prev).build();
+                // optionally remember the (never delivered) block of the announced header under a scenario id
+                if let Some(id) = op["ids"][k as usize].as_u64() { w.blocks.insert(id, Block::new(b.clone())); }
                 let mut v = vec![];
                 b.header.consensus_encode(&mut v).unwrap();
                 blobs.push(ctypes::BlockHeaderBlob::from(v));
